@@ -774,3 +774,61 @@ func init() {
 	libModels["(*time.Timer).Stop"] = func(in *Interp, fn *ssa.Function, args []Value) Value { return TTrue }
 	libModels["(*time.Timer).Reset"] = func(in *Interp, fn *ssa.Function, args []Value) Value { return TTrue }
 }
+
+func init() {
+	// internal/bytealg.IndexString(a, b): first index of b in a, -1 if none.
+	idx := func(in *Interp, ar Rope, aoff, an *Term, br Rope, boff, bn *Term) Value {
+		m := in.p.Concretize(bn, "IndexString needle length")
+		max, ok := an.ConstVal()
+		if !ok {
+			max = in.p.UpperBound(an, 256)
+		}
+		if max > 4096 || m > 64 {
+			panic(engineError{"IndexString over a long haystack/needle"})
+		}
+		res := C64(^uint64(0))
+		if m > max {
+			return res
+		}
+		for k := max - m + 1; k > 0; k-- {
+			p := k - 1
+			hit := ULe(C64(p+m), an)
+			for j := uint64(0); j < m; j++ {
+				hit = BAnd(hit, Eq(ar.sel(Add(aoff, C64(p+j))), br.sel(Add(boff, C64(j)))))
+			}
+			res = Ite(hit, C64(p), res)
+		}
+		return res
+	}
+	libModels["internal/bytealg.IndexString"] = func(in *Interp, fn *ssa.Function, args []Value) Value {
+		a, b := args[0].(Str), args[1].(Str)
+		return idx(in, a.r, a.off, a.n, b.r, b.off, b.n)
+	}
+	libModels["internal/bytealg.Index"] = func(in *Interp, fn *ssa.Function, args []Value) Value {
+		a, b := args[0].(Slice), args[1].(Slice)
+		if a.obj == nil || b.obj == nil {
+			if b.obj == nil || b.len == C64(0) {
+				return C64(0)
+			}
+			return C64(^uint64(0))
+		}
+		return idx(in, in.sarrOf(a).r, a.off, a.len, in.sarrOf(b).r, b.off, b.len)
+	}
+	libModels["internal/bytealg.CountString"] = func(in *Interp, fn *ssa.Function, args []Value) Value {
+		a := args[0].(Str)
+		c := args[1].(*Term)
+		max, ok := a.n.ConstVal()
+		if !ok {
+			max = in.p.UpperBound(a.n, 256)
+		}
+		if max > 4096 {
+			panic(engineError{"CountString over a long string"})
+		}
+		res := C64(0)
+		for k := uint64(0); k < max; k++ {
+			hit := BAnd(ULt(C64(k), a.n), Eq(a.r.sel(Add(a.off, C64(k))), c))
+			res = Add(res, Ite(hit, C64(1), C64(0)))
+		}
+		return res
+	}
+}
